@@ -47,13 +47,13 @@ Proof. destruct v1, v2; cbn; intro H; try contradiction; subst; reflexivity. Qed
 Lemma hold_get_rel m k o1 o2 : holder_rel m o1 o2 -> vrel m (hold_get k o1) (hold_get k o2).
 Proof.
   intro H. induction H as [|[j1 v1] [j2 v2] l1 l2 [Hf Hv] _ IH]; cbn; [reflexivity|].
-  cbn in Hf. subst j2. destruct (Z.eqb k j1); auto.
+  cbn in Hf. subst j2. destruct (key_eqb k j1); auto.
 Qed.
 
 Lemma hold_mem_rel m k o1 o2 : holder_rel m o1 o2 -> hold_mem k o1 = hold_mem k o2.
 Proof.
   intro H. induction H as [|[j1 v1] [j2 v2] l1 l2 [Hf Hv] _ IH]; cbn; [reflexivity|].
-  cbn in Hf. subst j2. destruct (Z.eqb k j1); auto.
+  cbn in Hf. subst j2. destruct (key_eqb k j1); auto.
 Qed.
 
 Lemma hold_put_rel m k v1 v2 o1 o2 :
@@ -61,7 +61,7 @@ Lemma hold_put_rel m k v1 v2 o1 o2 :
 Proof.
   intros H Hv. induction H as [|[j1 w1] [j2 w2] l1 l2 [Hf Hw] Hr IH]; cbn.
   - constructor; [split; auto|constructor].
-  - cbn in Hf. subst j2. destruct (Z.eqb k j1).
+  - cbn in Hf. subst j2. destruct (key_eqb k j1).
     + constructor; [split; auto|exact Hr].
     + constructor; [split; auto|exact IH].
 Qed.
@@ -70,7 +70,7 @@ Lemma hold_remove_rel m k o1 o2 :
   holder_rel m o1 o2 -> holder_rel m (hold_remove k o1) (hold_remove k o2).
 Proof.
   intros H. induction H as [|[j1 w1] [j2 w2] l1 l2 [Hf Hw] Hr IH]; cbn; [constructor|].
-  cbn in Hf. subst j2. destruct (Z.eqb k j1); [exact Hr|]. constructor; [split; auto|exact IH].
+  cbn in Hf. subst j2. destruct (key_eqb k j1); [exact Hr|]. constructor; [split; auto|exact IH].
 Qed.
 
 Lemma hold_set_rel m k v1 v2 o1 o2 :
@@ -248,6 +248,15 @@ Proof.
     try reflexivity; apply hold_get_rel; now apply Hhp.
 Qed.
 
+Lemma size_of_rel hm m s1 s2 v1 v2 :
+  st_rel hm m s1 s2 -> vrel m v1 v2 -> size_of s1 v1 = size_of s2 v2.
+Proof.
+  intros (_ & _ & Hhp & _) Hv. destruct v1 as [a|r1|r1], v2 as [b|r2|r2]; cbn in Hv; try contradiction.
+  - now subst.
+  - cbn. f_equal. pose proof (Hhp _ _ Hv) as H. clear -H. induction H; cbn; auto.
+  - cbn. f_equal. pose proof (Hhp _ _ Hv) as H. clear -H. induction H; cbn; auto.
+Qed.
+
 Lemma store_elem_rel hm m s1 s2 e1 e2 x k v1 v2 :
   st_rel hm m s1 s2 -> env_rel m e1 e2 -> vrel m v1 v2 ->
   exists m', incl m m' /\
@@ -321,7 +330,7 @@ Proof.
     cbn. exists hm, m. split; [apply incl_refl|]. split; [apply incl_refl|]. split; [|reflexivity].
     destruct Hst as (Hel & Hi & Hhp & Hm & Hdi & Hsc & Hl & Hs & Hc & Hb & Hbd & Hbm & Hbdm).
     srel. now apply end_in_rel. }
-  destruct i as [mk|d|x v|x k v|x k y|y x k|x y|x l|x|x k|args q]; cbn in Hsz.
+  destruct i as [mk|d|x v|x k v|x k y|y x k|x y|x l|x|x k|x|args q]; cbn in Hsz.
   - (* print *) cbn. apply IHn; auto. lia.
   - (* wait *)
     cbn. exists hm, m. split; [apply incl_refl|]. split; [apply incl_refl|]. split; [|reflexivity].
@@ -363,6 +372,8 @@ Proof.
     cbn. rewrite (print_of_rel m _ _ (env_get_rel m x e1 e2 He)). apply IHn; auto. lia.
   - (* println local.x[k] *)
     cbn. rewrite (print_of_rel m _ _ (load_elem_rel hm m s1 s2 e1 e2 x k Hst He)). apply IHn; auto. lia.
+  - (* println local.x.size *)
+    cbn. rewrite (size_of_rel hm m s1 s2 _ _ Hst (env_get_rel m x e1 e2 He)). apply IHn; auto. lia.
   - (* thread q args *)
     cbn.
     pose proof Hst as (Hel & Hi & Hhp & Hm & Hdi & Hsc & Hl & Hs & Hc & Hb & Hbd & Hbm & Hbdm).
